@@ -120,8 +120,17 @@ import "go.lstv.dev/util/internal"
 //@ pure func digitRun(w bytes) int = leadRun(w, '0', '1', '2', '3', '4', '5', '6', '7', '8', '9')
 //@ pure func stopOK(w bytes) bool = skipRun(w) == len(w) || (w[skipRun(w)] < 128 && (w[skipRun(w)] != '_' || dcount(w, skipRun(w)) == 0))
 //@ pure func trimmed(w bytes, q int) bytes = w[q:len(w)-trailRun(w[q:len(w)], ' ')]
+// The same for texts with underscores: after the first digit, digits, spaces and underscores all belong to the run
+// (an underscore before any digit ends it). lead: the leading spaces; uRun: the end of the run.
+//@ pure func lead(w bytes) int = leadRun(w, ' ')
+//@ pure func uRun(w bytes) int = ite(lead(w) < len(w) && isDigit(w[lead(w)]), lead(w) + leadRun(w[lead(w):len(w)], '0', '1', '2', '3', '4', '5', '6', '7', '8', '9', ' ', '_'), lead(w))
+//@ pure func uStopOK(w bytes) bool = uRun(w) == len(w) || w[uRun(w)] < 128
 //@ func prepareNumber
 //@   pure
+//@   ensures [C08.prep] uStopOK(input) ==> len(number) == dcount(input, uRun(input)) && unit == trimmed(input, uRun(input))
+//@   ensures [C08.prep] uStopOK(input) ==> forall j in 0..uRun(input) :: isDigit(input[j]) ==> dcount(input, j) < len(number) && number[dcount(input, j)] == input[j]
+//@   loop 0 invariant uStopOK(input) ==> rangePos() <= uRun(input) && uRun(input) <= len(input) && lead(input) <= uRun(input) && (rangePos() <= lead(input) ==> dcount(input, rangePos()) == 0) && (rangePos() > lead(input) ==> dcount(input, rangePos()) >= 1 && isDigit(input[lead(input)])) && len(theBuilder()) == dcount(input, rangePos())
+//@   loop 0 invariant uStopOK(input) ==> forall j in 0..rangePos() :: dcount(input, j) <= dcount(input, rangePos()) && (isDigit(input[j]) ==> dcount(input, j) < dcount(input, rangePos()) && theBuilder()[dcount(input, j)] == input[j])
 //@   ensures [C08.prep] forall i in 0..len(number) :: isDigit(number[i])
 //@   ensures [C08.prep] len(unit) <= len(input)
 //@   ensures [C08.prep C04.prep] stopOK(input) ==> len(number) == dcount(input, skipRun(input)) && unit == trimmed(input, skipRun(input))
